@@ -66,6 +66,25 @@ def replay(obligation, extra):
             if err:
                 return dict(found=True, input='server: %s; application: %s' % (name, react_name), expected='Connecting, then ConnectFail | Connected [Ready ...] Disconnected',
                             observed='%s; events: %r' % (err, names))
+    # a timeout that has fired ends the iteration: close() sent before / at Ready (session time 0.0), the server completes
+    # the upgrade and then neither answers the Close nor drops the connection; data it sends long after the close timeout
+    # must not be reached
+    T = ref.server_frame(1, b'late')
+    for at in ('connected', 'ready'):
+        tried += 1
+        clock = harness.Clock().install()
+        try:
+            run = harness.drive(reads=lambda ws: [harness.response_for(ws.key)] + [('idle', 1)] * 10 + [T, b''],
+                                react=lambda ws, ev, k, run, at=at: ws.close() if ev.name == at else None,
+                                connect_kwargs=dict(poll=1, ping_rate=0, close_timeout=3), clock=clock)
+        finally:
+            clock.uninstall()
+        names = [e.name for e in run.events]
+        err = run.exception and 'exception escaped: %s' % run.exception or well_formed(names)
+        if err or 'text' in names or names.count('poll') > 6:
+            return dict(found=True, input='close() at %s, server completes the upgrade and stays silent for 10 s, close_timeout=3, poll=1' % at,
+                        expected='forced Disconnected about 3 s after the Close (iteration ends when the timeout fires)',
+                        observed='%s; events: %r' % (err or 'still iterating after 10 s', names))
     return dict(found=False, tried='%d runs (server behaviours x application reactions)' % tried)
 
 
